@@ -58,12 +58,14 @@ func unitCmd(args []string) {
 	cover := fs.Bool("cover", false, "")
 	assertsOnly := fs.Bool("assertsonly", false, "")
 	groups := fs.String("groups", "", "clause groups to keep (comma separated labels)")
+	locks := fs.Bool("locks", false, "track lock state and check guard directives (C20)")
 	timeout := fs.Int("timeout", 10000, "ms per query")
 	dump := fs.Bool("dump", false, "print the script")
 	irc := fs.Bool("irc", false, "wire the ircserver command table (handler template contracts)")
 	quiet := fs.Bool("q", false, "print failing obligations only")
 	fs.Parse(args)
 	start := time.Now()
+	vc.LockModeDefault = *locks
 	e, err := vc.Load("/repo", "/verif", strings.Split(*pkgs, ",")...)
 
 	if err != nil {
